@@ -146,7 +146,7 @@ SelectScen(pk) ==
 OpTfs == {<< >>, <<"lowercase">>, <<"trim", "lowercase">>, <<"removeWhitespace", "uppercase">>, <<"length">>, <<"uppercase", "lowercase", "hexEncode">>}
 s_78 == <<55, 56>>     \* hexEncode("x")
 OpOps == {OpLit("streq", s_x), OpLit("contains", s_x), OpLit("beginsWith", s_x), OpLit("endsWith", s_X),
-          OpLit("eq", s_1), OpLit("ge", s_2), OpLit("lt", s_2), OpLit("rx", s_x), OpLit("streq", s_78)}
+          OpLit("eq", s_1), OpLit("ge", s_2), OpLit("lt", s_2), OpLit("rx", s_x), OpLit("streq", s_78), OpLit("streq", s_0)}
 OpTargets == {T("ARGS"), TK("ARGS_GET", s_a), Tgt("ARGS_GET", SelAll, TRUE, << >>)}
 OpEntries == {E("ARGS_GET", k, v) : k \in {s_a, s_b}, v \in {s_x, s_X, s_sx, << >>, s_xy}}
 OperatePicks(maxEntries, phases, slice, slices) ==
@@ -282,13 +282,13 @@ DirBase ==
   << [MkRule(10, 1, <<M("ARGS_GET", s_a)>>) EXCEPT !.tags = <<"t1">>, !.msg = "m1"],
      [MkRule(20, 2, <<RuleLink(<<T("ARGS_GET")>>, << >>, OpLit("streq", s_x), FALSE, << >>)>>) EXCEPT !.tags = <<"t1", "t2">>],
      [MkRule(30, 2, <<RuleLink(<<TK("ARGS_GET", s_a)>>, << >>, OpLit("streq", s_x), FALSE, <<A("deny")>>),
-                     RuleLink(<<T("ARGS_POST")>>, << >>, OpLit("streq", s_x), FALSE, << >>)>>) EXCEPT !.tags = <<"t2">>, !.msg = "m3"],
+                     RuleLink(<<T("ARGS_POST")>>, << >>, OpLit("streq", s_x), FALSE, << >>)>>) EXCEPT !.tags = <<"t2">>, !.msg = "m3", !.status = 503],   \* an explicit status survives an action update
      MkRule(40, 2, <<ActLink(<<ASetvar(<<Lit(s_n)>>, "add", <<Lit(s_1)>>)>>)>>) >>
 OnlyExcl(col, sel) == Tgt(col, [t |-> "none", k |-> << >>, pat |-> [m |-> "", lit |-> << >>]], FALSE, <<sel>>)
 DirIdSets == { [ids |-> <<10>>, lo |-> 0, hi |-> 0], [ids |-> <<10, 30>>, lo |-> 0, hi |-> 0], [ids |-> <<20, 40>>, lo |-> 0, hi |-> 0],
                [ids |-> << >>, lo |-> 10, hi |-> 20], [ids |-> << >>, lo |-> 15, hi |-> 35], [ids |-> <<40>>, lo |-> 10, hi |-> 10] }
 DirTargetSets == { <<T("ARGS_POST")>>, <<TK("ARGS_GET", s_b)>>, <<OnlyExcl("ARGS_GET", SelKey(s_a))>>, <<OnlyExcl("ARGS_GET", SelKey(s_A))>> }
-DirActionSets == { <<A("deny")>>, <<A("pass")>>, <<ASetvar(<<Lit(s_n)>>, "add", <<Lit(s_2)>>)>> }
+DirActionSets == { <<A("deny")>>, <<A("drop")>>, <<A("pass")>>, <<ASetvar(<<Lit(s_n)>>, "add", <<Lit(s_2)>>)>> }
 WithIds(d, z) == [d EXCEPT !.ids = z.ids, !.lo = z.lo, !.hi = z.hi]
 Directives ==
   {WithIds(Dir("SecRuleRemoveById"), z) : z \in DirIdSets}
@@ -311,7 +311,8 @@ DirBase2 ==
      MkRule(99, 2, <<M("ARGS_GET", s_a)>>),
      [MkRule(30, 2, <<M("ARGS_GET", s_a)>>) EXCEPT !.tags = <<"t2">>],
      MkRule(40, 2, <<RuleLink(<<T("ARGS_GET")>>, << >>, OpLit("streq", s_x), FALSE, << >>)>>),      \* the whole collection
-     MkRule(50, 2, <<M("ARGS_GET", s_A)>>) >>                                                          \* a key written with an upper-case letter
+     MkRule(50, 2, <<M("ARGS_GET", s_A)>>),                                                           \* a key written with an upper-case letter
+     MkRule(60, 2, <<RuleLink(<<Tgt("ARGS_GET", SelAll, TRUE, << >>)>>, << >>, OpLit("eq", s_0), FALSE, << >>)>>) >>   \* a count that zero satisfies
 Directives2 == {WithIds(Dir("SecRuleRemoveById"), z) : z \in {[ids |-> <<25>>, lo |-> 0, hi |-> 0], [ids |-> << >>, lo |-> 25, hi |-> 30], [ids |-> <<30>>, lo |-> 20, hi |-> 25]}}
                \cup {[Dir("SecRuleRemoveByTag") EXCEPT !.s = "t2"], [Dir("SecRuleRemoveByMsg") EXCEPT !.s = "m3"]}
 \* run-time counterparts: one ctl rule carrying one or two removals (overlapping ranges are stored one after the other)
@@ -322,7 +323,8 @@ CtlActs2 == { <<ACtlRmId(25)>>, <<ACtlRmRange(25, 30)>>, <<ACtlRmRange(22, 27), 
               <<ACtlRmTgt(40, "ARGS_GET", SelRx([m |-> "prefix", lit |-> s_a])), ACtlRmTgt(40, "ARGS_GET", SelRx([m |-> "prefix", lit |-> s_b]))>>,
               <<ACtlRmTgt(40, "ARGS_GET", SelRx([m |-> "prefix", lit |-> s_b])), ACtlRmTgt(40, "ARGS_GET", SelKey(s_a))>>,
               <<ACtlRmTgt(40, "ARGS_GET", SelKey(s_a)), ACtlRmTgt(40, "ARGS_GET", SelKey(s_b))>>,
-              <<ACtlRmTgtTag("t2", "ARGS_GET", SelRx([m |-> "prefix", lit |-> s_a])), ACtlRmTgt(30, "ARGS_GET", SelAll)>> }
+              <<ACtlRmTgtTag("t2", "ARGS_GET", SelRx([m |-> "prefix", lit |-> s_a])), ACtlRmTgt(30, "ARGS_GET", SelAll)>>,
+              <<ACtlRmTgt(60, "ARGS_GET", SelAll)>>, <<ACtlRmTgt(60, "ARGS_GET", SelKey(s_a))>> }
 DirReqs2 == {ReqOfEntries(S) : S \in SUBSET {E("ARGS_GET", s_a, s_x), E("ARGS_GET", s_b, s_x), E("ARGS_GET", s_A, s_x), E("ARGS_GET", s_cc, s_1)}}
 Pass1 == <<A("pass")>>
 DirPicks(two, slice, slices) ==
